@@ -4,6 +4,7 @@ from ..selfcheck import check_D
 from ..nativeio import differential
 
 ID = "C13"
+NATIVE_BOUNDED = (40, 400)        # (quick, thorough) native corpus sizes - bounded stand-in for rounding effects
 MIN_OBLIGATIONS = 12
 
 
